@@ -72,7 +72,12 @@ class StartupRun:
                     raise ValueError("constructor failure requested")
                 run.trace.append({"l": ["construct", _i], "t": 0.0})
                 for ch in _spec["children"]:
-                    self.add_component(alias_of(run.prog[ch]), run.classes[ch])
+                    if ch % 3 == 2:
+                        # declared by reference, as configuration files do
+                        globals()[f"DYN_C{ch}"] = run.classes[ch]
+                        self.add_component(alias_of(run.prog[ch]), f"{__name__}:DYN_C{ch}")
+                    else:
+                        self.add_component(alias_of(run.prog[ch]), run.classes[ch])
 
             ns["__init__"] = __init__
             if spec["prepare"] is not None:
@@ -141,6 +146,8 @@ class StartupRun:
                         await anyio.sleep(a["d"] * TICK)
                     else:
                         await anyio.lowlevel.checkpoint()
+                    if a.get("nested"):
+                        await self.nested_start(i)
                     self.log("tick", i)
                 elif k == "regTd":
                     if a["id"] % 2:
@@ -207,6 +214,27 @@ class StartupRun:
         if got:
             self.probe_failed(0, f"resource_added events without a publication: {got[:4]}", "C05,C18")
 
+    async def nested_start(self, i: int) -> None:
+        """A component that starts a small component tree of its own from inside prepare()/start(): for the inner
+        components, too, a new context takes the context the *outer* start_component() was called in as parent
+        (component contexts are never parents), and what has been published so far is visible."""
+        from asphalt.core import Component, start_component
+
+        run = self
+
+        class InnerChild(Component):
+            async def start(self) -> None:
+                run.probe_context(i)
+
+        class Inner(Component):
+            def __init__(self) -> None:
+                self.add_component("leaf", InnerChild)
+
+            async def prepare(self) -> None:
+                run.probe_context(i)
+
+        await start_component(Inner, timeout=None)
+
     def probe_context(self, i: int) -> None:
         """C12 inside a component: the current context is the component's own; a context created here
         takes the context start_component() was called in as its parent. (Checked without a checkpoint.)"""
@@ -215,6 +243,16 @@ class StartupRun:
         cc = current_context()
         inner = Context()
         ok = inner.parent is self.surrounding and cc is not self.surrounding
+        for types, name, _desc, is_factory in self.expected_events:
+            if is_factory:
+                continue        # (what a factory generated belongs to one context and is not inherited)
+            t = TYPES[types[0]]
+            want = self.surrounding.get_resource_nowait(t, name, optional=True)
+            if inner.get_resources(t).get(name) is not want or \
+                    cc.get_resource_nowait(t, name, optional=True) is not want:
+                self.probe_failed(i, f"a context created inside prepare()/start() (or the component's own context) does "
+                                     f"not see resource ({types[0]}, {name!r}) which its parent context holds", "C05,C02")
+                break
         if not ok:
             self.probe_failed(i, "a context created inside prepare()/start() did not take the context start_component "
                                  "was called in as its parent, or the component does not run in its own context", "C05,C12")
